@@ -93,13 +93,23 @@ let split_at_last_char c s = match String.rindex_opt s c with
   | Some i -> (String.sub s 0 i, Some (String.sub s (i + 1) (String.length s - i - 1))) | None -> (s, None)
 
 (* RR = TYPE:rdata[:ttl][@owner] *)
+let class_of_string c = match String.uppercase_ascii c with
+  | "IN" -> 1 | "CH" | "CHAOS" -> 3 | "HS" | "HESIOD" -> 4 | "NONE" -> 254 | "ANY" -> 255
+  | x -> (match int_of_string_opt x with Some v -> v | None -> raise (Bad ("class " ^ c)))
+let find_sub s sub =
+  let n = String.length s and m = String.length sub in
+  let rec go i = if i + m > n then None else if String.sub s i m = sub then Some i else go (i + 1) in go 0
+
 let rr_of_spec qname s =
+  let (s, cls) = match find_sub s "@@" with
+    | Some i -> (String.sub s 0 i, class_of_string (String.sub s (i + 2) (String.length s - i - 2)))
+    | None -> (s, 1) in
   let (body, owner) = match String.index_opt s '@' with
     | Some i -> (String.sub s 0 i, String.sub s (i + 1) (String.length s - i - 1)) | None -> (s, qname) in
   let nodot n = if String.length n > 1 && n.[String.length n - 1] = '.' then String.sub n 0 (String.length n - 1) else n in
   let owner = nodot owner in
   let bytes_of_name n = bytes_of_string (nodot n) in
-  let mk ttl d = { rr_name = bytes_of_string owner; rr_class = aRES_CLASS_IN; rr_ttl = z_of_int ttl; rr_data = d } in
+  let mk ttl d = { rr_name = bytes_of_string owner; rr_class = z_of_int cls; rr_ttl = z_of_int ttl; rr_data = d } in
   let colon = String.index body ':' in
   let typ = String.uppercase_ascii (String.sub body 0 colon) in
   let rest = String.sub body (colon + 1) (String.length body - colon - 1) in
@@ -148,6 +158,15 @@ let qres_of_spec qname qtype spec =
        let rrs = List.map (rr_of_spec qname) (String.split_on_char '+' an) in
        QOk { r_rcode = z_of_int 0; r_questions = [{ q_name = bytes_of_string (if String.length qname > 1 && qname.[String.length qname - 1] = '.' then String.sub qname 0 (String.length qname - 1) else qname); q_type = z_of_int qtype; q_class = aRES_CLASS_IN }]; r_answers = rrs })
   | r -> raise (Bad ("rcode " ^ r))
+
+(* a record served from the query cache: every TTL reduced by the seconds it sat there *)
+let age_qres dec = function
+  | QOk r -> QOk { r with r_answers = List.map (fun rr -> { rr with rr_ttl = z_of_int (max 0 (int_of_z rr.rr_ttl - dec)) }) r.r_answers }
+  | q -> q
+(* lifetime the cache gives an answer: min TTL over all records, capped; 0 = not cached *)
+let cache_ttl maxttl = function
+  | QOk r -> min maxttl (List.fold_left (fun a rr -> min a (int_of_z rr.rr_ttl)) max_int r.r_answers)
+  | QErr st -> if int_of_z st = status_ENODATA then maxttl else 0      (* NOERROR without records; NXDOMAIN without SOA is not cached *)
 
 (* ---------------- log structures ---------------- *)
 type tx = { j : int; qname : string; qtype : int; mutable rsp : (int * string) option (* log position, spec *) }
@@ -205,20 +224,38 @@ let () =
           (List.init (String.length (cfgv "lookups" "b")) (String.get (cfgv "lookups" "b"))) in
       let hf = hosts_build (read_hosts (cfgv "hosts" "/dev/null")) in
       (* ---- pass over the log ---- *)
-      let reqs = ref [] and cur = ref None and lastop = ref "" and txtab = Hashtbl.create 16 and overlap = ref false in
+      let reqs = ref [] and lastop = ref "" and txtab = Hashtbl.create 16 and overlap = ref false and ambiguous = ref false in
+      let now_ms = ref (int_of_string (cfgv "clock" "1000000")) in
+      let time_at = Array.make (Array.length lines + 1) 0 in
+      let nodot n = if String.length n > 1 && n.[String.length n - 1] = '.' then String.sub n 0 (String.length n - 1) else n in
+      (* which pending request a transmission belongs to: the only pending one, or (requests in
+         flight together) the one whose name / reverse-map name it asks for *)
+      let claims r (t : tx) =
+        match r.api with
+        | "gai" | "ghbn" -> (t.qtype = 1 || t.qtype = 28) && String.lowercase_ascii (nodot t.qname) = String.lowercase_ascii (nodot (List.nth r.args 0))
+        | _ -> t.qtype = 12 && (match parse_ip (List.nth r.args 0) with
+            | Some (f, ab) -> String.lowercase_ascii t.qname = string_of_bytes (if f = 4 then rfc_ptr4 ab else rfc_ptr6 ab)
+            | None -> false) in
       Array.iteri (fun pos l ->
+        time_at.(pos) <- !now_ms;
         let toks = String.split_on_char ' ' l in
         match toks with
         | "OP" :: _ :: rest -> lastop := String.concat " " rest
+        | "NOW" :: t :: _ -> (match String.split_on_char '.' t with ms :: _ -> now_ms := int_of_string ms | [] -> ())
         | "REQ" :: t :: api :: args ->
-          (match !cur with Some r when r.cb = None -> overlap := true | _ -> ());
+          if List.exists (fun r -> r.cb = None) !reqs then overlap := true;
           let r = { tok = int_of_string (String.sub t 1 (String.length t - 1)); api; args; pos; txs = []; cb = None } in
-          cur := Some r; reqs := r :: !reqs
+          reqs := r :: !reqs
         | "TX" :: x :: _ ->
           let j = int_of_string (String.sub x 1 (String.length x - 1)) in
           let t = { j; qname = kv toks "qname"; qtype = int_of_string (kv toks "qtype"); rsp = None } in
           Hashtbl.replace txtab j t;
-          (match !cur with Some r when r.cb = None -> r.txs <- r.txs @ [t] | _ -> overlap := true)
+          (match List.filter (fun r -> r.cb = None) (List.rev !reqs) with
+           | [r] -> r.txs <- r.txs @ [t]
+           | [] -> ambiguous := true
+           | pend -> (match List.filter (fun r -> claims r t && not (List.exists (fun (u : tx) -> u.qtype = t.qtype) r.txs)) pend with
+               | [r] -> r.txs <- r.txs @ [t]
+               | _ -> ambiguous := true))
         | "RSP" :: x :: _ ->
           let j = int_of_string (String.sub x 1 (String.length x - 1)) in
           let spec = match String.split_on_char ' ' !lastop with
@@ -231,7 +268,10 @@ let () =
            | Some r when r.cb = None -> r.cb <- Some (pos, l)
            | _ -> ())
         | _ -> ()) lines;
-      if !overlap then (Printf.printf "CASE %d trivial-overlap\n" k)
+      let time_at pos = if pos >= 0 && pos < Array.length time_at then time_at.(pos) else !now_ms in
+      let qcache = (try int_of_string (cfgv "qcachettl" "3600") with _ -> 3600) in
+      let cache : (string * int, int * int * qres) Hashtbl.t = Hashtbl.create 8 in   (* (name, type) -> insert s, expire s, answer *)
+      if !ambiguous then (Printf.printf "CASE %d trivial-ambiguous-overlap\n" k)
       else begin
       List.iter (fun r ->
         match r.cb with
@@ -257,15 +297,39 @@ let () =
               | l -> let rec take n l = if n = 0 then ([], l) else (match l with [] -> ([], []) | x :: t -> let (a, b) = take (n - 1) t in (x :: a, b)) in
                 let (g, rest) = take nq l in g :: group rest in
             let rounds = List.map (fun g ->
-                let os = List.sort (fun (p1, _) (p2, _) -> compare p1 p2) (List.map outcome g) in
+                let os = List.stable_sort (fun (p1, _) (p2, _) -> compare p1 p2) (List.map outcome g) in
                 { r_arrivals = List.map snd os;
                   r_single_label = (match g with t :: _ -> label_count t.qname = 1 | [] -> false) }) (group r.txs) in
+            (* query cache on (cases without search domains: the only candidate is the name itself):
+               a sub-query that was not transmitted is answered from the cache, TTLs aged *)
+            let lname = String.lowercase_ascii (nodot name) in
+            let rounds =
+              if qcache <= 0 then rounds else begin
+                let req_sec = time_at r.pos / 1000 in
+                let arr = List.filter_map (fun ty ->
+                    match List.find_opt (fun (t : tx) -> t.qtype = ty) r.txs with
+                    | Some t -> Some (outcome t)
+                    | None -> (match Hashtbl.find_opt cache (lname, ty) with
+                        | Some (ins, exp, q) when exp > req_sec -> Some (r.pos, age_qres (req_sec - ins) q)
+                        | _ -> None)) (if family = 0 then [1; 28] else if family = 4 then [1] else [28]) in
+                if arr = [] then [] else
+                  [{ r_arrivals = List.map snd (List.stable_sort (fun (p1, _) (p2, _) -> compare p1 p2) arr);
+                     r_single_label = label_count name = 1 }]
+              end in
+            if qcache > 0 then
+              List.iter (fun (t : tx) -> match t.rsp with
+                  | Some (p, spec) when p < cbpos ->
+                    let q = qres_of_spec t.qname t.qtype spec in
+                    let ttl = cache_ttl qcache q in
+                    if ttl > 0 then Hashtbl.replace cache (String.lowercase_ascii (nodot t.qname), t.qtype) (time_at p / 1000, time_at p / 1000 + ttl, q)
+                  | _ -> ()) r.txs;
             let nm = bytes_of_string name in
             let p4 = parse_v4 name and p6 = parse_v6 name in
             let fz = fam_z family in
             let src = if p4 <> None || p6 <> None then "literal" else if is_localhost nm then "localhost"
+              else if qcache > 0 && List.length r.txs < nq && rounds <> [] then "cachehit"
               else if r.txs = [] then "nodns" else Printf.sprintf "dns%d" (min 3 (List.length rounds)) in
-            classes := Printf.sprintf "%s:f%d:%s:%s" r.api family src (if status = 0 then "ok" else "err") :: !classes;
+            classes := Printf.sprintf "%s:f%d:%s:%s%s" r.api family src (if status = 0 then "ok" else "err") (if !overlap then ":overlap" else "") :: !classes;
             (* a name the query layer cannot encode fails every sub-query at once with EBADNAME
                (nothing is transmitted): one synthetic round *)
             let names_status = 0 in
